@@ -381,6 +381,26 @@ func traverseIssues(rs *Resid, fn *ast.FuncDecl) []sideIssue {
 			if canon(ix.Index) != keyName(l.loop) {
 				iss(as, "slot", "stores the result at %s instead of the element's own index", rs.src(ix.Index))
 			}
+		} else if rid, ok := as.Lhs[0].(*ast.Ident); ok && rid.Name != "_" {
+			// res, err := f(elem); if err != nil { ... }; out[i] = res — the result is bound first and stored, unconditionally
+			// and exactly once, after the error test
+			stored := 0
+			for _, later := range l.loop.Body.List[i+1:] {
+				st2, ok := later.(*ast.AssignStmt)
+				if !ok || len(st2.Lhs) != 1 || len(st2.Rhs) != 1 || canon(st2.Rhs[0]) != rid.Name {
+					continue
+				}
+				if ix, ok := st2.Lhs[0].(*ast.IndexExpr); ok {
+					stored++
+					acc = canon(ix.X)
+					if canon(ix.Index) != keyName(l.loop) {
+						iss(st2, "slot", "stores the result at %s instead of the element's own index", rs.src(ix.Index))
+					}
+				}
+			}
+			if stored != 1 {
+				iss(as, "slot", "does not store the result at the element's index")
+			}
 		} else {
 			iss(as, "slot", "does not store the result at the element's index")
 		}
